@@ -64,6 +64,13 @@ def gen_spec(rnd):
             steps.append(simgen.gen_step(rnd, names, [k]))
         if rnd.random() < .4:
             steps.append(['adv', rnd.choice([0, .05, .3])])
+    if len(names) >= 2 and rnd.random() < .1:
+        # the set of watchers changes at run time (one removed, one added and started); the newcomer is accounted
+        # for like any other: a death is noticed and repaired by the next periodic check
+        steps += [['call', 'rm', {'name': names[-1], 'waiting': True}],
+                  ['call', 'add', {'name': 'new', 'cmd': simhist.tag_of('new'), 'start': True, 'waiting': True,
+                                   'options': {'numprocesses': 2, 'graceful_timeout': 0.2}}],
+                  ['settle', 60], ['extkill', 'new', rnd.randint(0, 1), 9], ['qpoint']]
     fail = []
     if rnd.random() < .3:
         base = rnd.randint(1, 12)
@@ -303,3 +310,9 @@ def starved(merged, tier):
 def precheck():
     from vlib.calibrate import calibrate
     return calibrate()
+
+
+def shard_env(i, n):
+    """one shard in four runs the daemon code with DEBUG set in its environment (circus then wraps its methods in
+    tracing decorators at import time: a different code path through every call)"""
+    return {'DEBUG': '1'} if i % 4 == 3 else None
